@@ -12,8 +12,10 @@ import (
 )
 
 // smtpTS is the typestate model of one SMTP session:
-//   A = Session.state (State constant), B = envelope recipients (0 empty, 1 non-empty,
-//   2 unknown), C = final replies sent since the last input read (0, 1, 2 = two or more).
+//
+//	A = Session.state (State constant), B = envelope recipients (0 empty, 1 non-empty,
+//	2 unknown), C = final replies sent since the last input read (0, 1, 2 = two or more).
+//
 // Command strings are not tracked (every switch arm on the command is possible), so any
 // invariant established here holds for every command history.
 type smtpTS struct {
